@@ -168,6 +168,15 @@ CHECKS = {
         "one ofxget run = module reload against the directory (as a new process sees it); FI-database values as shipped; explicit empty values are not asserted either way",
         "property-based testing: Hypothesis stateful machine with a reference model of source precedence + metamorphic write/re-run relation",
     ),
+    "C19": (
+        "exploration",
+        "Hypothesis-generated ofxget runs in fresh configuration directories: account multisets per type from CLI and/or user file, ids, "
+        "dates in all notations, include flags, versions and formats; dry-run output of stmt / stmtend is read by the independent "
+        "scanner and compared with a reference model of the expected wrappers; --all runs are real runs against a fake server "
+        "serving generated ACCTINFORS, and the statement request the server receives must ask for exactly the ACTIVE accounts.",
+        "accounts compared as multisets per request kind; --all combined with local lists only asserts that no inactive account is requested",
+        "property-based testing: Hypothesis generation; reference-model oracle on the printed / received request (independent reader)",
+    ),
 }
 
 PENDING_REASON = "check not built yet in this round (planned in DESIGN.md §3); not claimed until its machinery exists and is quiet on the unchanged tree"
